@@ -303,6 +303,9 @@ def _r_japanese_year(t, impl, expected):
 def _r_japanext(t, impl, expected):
     """japanext: the eras before Meiji that Calendar::era() reports (`keio-1865`, `taika-645`, ...) are not in the
     crate's era table, so a date in one of them cannot be rebuilt from its era and era year."""
+    if t[0] == "cal_withid" and t[1] == "japanext" and len(t) > 5 and "e" in t[5]:
+        # the date given back its own era and era year
+        return _re.match(r"^err range(@y<=0)?@historic$", impl) is not None and expected.startswith("ok ")
     if t[0] != "cal_rt" or t[1] != "japanext":
         return False
     a, e = _rt_parts(impl), _rt_parts(expected)
@@ -333,7 +336,8 @@ def _r_islamic_day0(t, impl, expected):
         return impl.endswith("@day0") and expected.startswith("ok ")
     if t[0] == "cal_fromc":
         # the other side of it: the last day of the month before is accepted and reads back as day 0 of the next
-        return expected == "lib" and _re.match(r"^INCONSISTENT month \d+!=\d+,day 0!=\d+$", impl) is not None
+        # (asked for by ordinal month or by month code)
+        return expected == "lib" and _re.match(r"^INCONSISTENT (month \d+!=\d+|code M\d+L?!=M\d+L?),day 0!=\d+$", impl) is not None
     return False
 
 
